@@ -36,6 +36,7 @@ class LineInjector:
         self.count = 0
         self.sites: list = []          # (filename, lineno, qualname) per counted event
         self.fired: list = []
+        self.trail: list = []          # qualname of every counted event (cheap)
         self.record_sites = at is None
 
     def _cb(self, code, lineno):
@@ -44,6 +45,7 @@ class LineInjector:
         if self.gate is not None and not self.gate():
             return None
         self.count += 1
+        self.trail.append(code.co_qualname)
         if self.record_sites:
             self.sites.append((code.co_filename, lineno, code.co_qualname))
         if self.at is not None and (self.count == self.at or (self.second_at is not None and self.count == self.second_at)):
